@@ -35,8 +35,9 @@ func (s *Server) Rename(ctx context.Context, params *protocol.RenameParams) (*pr
 		return nil, nil
 	}
 
-	resolved := s.getWorkspaceResolved(params.TextDocument.URI)
-	currentPath := uriToPath(params.TextDocument.URI)
+	// currentPath names the file the tree's Primary journal belongs to: with a workspace
+	// that is the root journal, not necessarily the requesting document
+	resolved, currentPath := s.getWorkspaceResolvedWithPath(params.TextDocument.URI)
 
 	locations := findReferences(target, resolved, currentPath, journal, true)
 	if len(locations) == 0 {
